@@ -33,7 +33,8 @@ CFG = {
     ],
     "assumptions": [
         "finite coordinates (no NaN/Inf); tolerance finite; coordinate differences zero or within (2^-500, 2^500) (beyond that range distPointToSegment rescales, and findIntersection overflows; the T1 tie of distPointToSegment is stated in range)",
-        "simplicity preservation is claimed for open line strings that are simple and in general position (vertices pairwise distinct, no three collinear)",
+        "simplicity preservation is claimed (property) for open line strings that are simple and in general position (vertices pairwise distinct, no three collinear); "
+        "proved and judged also on the larger class Spec.ColOrdered (vertices distinct, collinear triples in index order along their line); no claim for rings (kernel-checked counter-example)",
     ],
     "rule": "fixed corpus (lengths 0,1,2,3 for every type and tolerance, TestSimplify's curves, closing-segment witness, collinear/duplicate/"
             "negative-tolerance cases) + generated integer-grid random walks, self-avoiding lattice walks, simple lines in general position "
